@@ -100,6 +100,24 @@ theorem stochastic_noFail (cfg : Cfg) (hq : ValidQ cfg) (cs : Nat → Nat) (full
     exact ⟨hi1, ⟨fun x => by rw [(hf x).1]; exact hP.track.arrived_iff x,
                  fun x => by rw [(hf x).2]; exact hP.track.departed_iff x⟩, hP.evs⟩
 
+/-- the same with any energy ledger threaded next to the network state (`fully_charged` computed
+    in the run): the predicate ignores the ledger -/
+theorem stochastic_noFailL {L : Type} (cfg : Cfg) (hq : ValidQ cfg) (cs : Nat → Nat) (led : Ledger L) :
+    NoFailH (stochasticNetL (L := L) cs) (stochasticPostL led) cfg
+      (fun hist s => LoopInv cfg hist s.1) where
+  plugin := by
+    intro hist s x hx hP hnew
+    exact (stochastic_noFail cfg hq cs (fun _ _ => false)).plugin hist s.1 x hx hP hnew
+  unplug := by
+    intro hist s x hx hP hin hnew
+    exact (stochastic_noFail cfg hq cs (fun _ _ => false)).unplug hist s.1 x hx hP hin hnew
+  recomp := by
+    intro hist s r hr hP
+    exact (stochastic_noFail cfg hq cs (fun _ _ => false)).recomp hist s.1 r hr hP
+  post := by
+    intro hist t s hP
+    exact (stochastic_noFail cfg hq cs (fun _ => led.full (led.charge t s.1 s.2))).post hist t s.1 hP
+
 theorem loopInv_init (cfg : Cfg) (hst : cfg.stations.Nodup) (early : Bool) :
     LoopInv cfg [] (net0 cfg early) :=
   ⟨Inv.init _ _ _ hst, Track.init _ _ _, fun e he => by simp at he⟩
